@@ -615,8 +615,8 @@ Qed.
 Theorem sqfree_spec N : 0 < N -> sq_post N (sqfree 1 N 2).
 Proof.
   intros HN. unfold sqfree.
+  assert (I0 : sq_inv N (1, N, 2)).
   { unfold sq_inv. repeat split; try lia. }
-  { unfold sq_inv. repeat split; try lia. intros e He. lia. }
   pose proof (sqfree_pow_spec N (sqfree_fuel N) (1, N, 2) I0) as H.
   destruct (sqfree_pow (sqfree_fuel N) (1, N, 2)) as [s'|r]; [| exact H].
   exfalso. destruct H as (_ & M & P).
@@ -626,4 +626,267 @@ Proof.
     rewrite !Z.pow_succ_r by (pose proof (Z.log2_nonneg N); lia).
     pose proof (Z.log2_spec N HN) as [_ Hl]. rewrite Z.pow_succ_r in Hl by apply Z.log2_nonneg. lia. }
   lia.
+Qed.
+
+(* ---------------------------------------------------------------- sqrt (num.qv:354-367) *)
+Theorem sqrt_coeff c p q : wfc c -> to_rational c = Rat p q ->
+  (p < 0 -> sqrt (Some (NC c)) = Val None) /\
+  (p = 0 -> sqrt (Some (NC c)) = Val (Some (NInt 0))) /\
+  (0 < p -> exists r, sqrt (Some (NC c)) = Val (Some r) /\ built r /\
+      ((exists c', r = NC c' /\ wfc c' /\ (0 < cq c')%Q /\ cq c' * cq c' == cq c) \/
+       (exists b m, r = NSurd (CInt 0) b m /\ wfc b /\ (0 < cq b)%Q /\ 1 < m /\ squarefree m /\
+                    cq b * cq b * inject_Z m == cq c))).
+Proof.
+  intros Hc E. pose proof Hc as Hc'. unfold wfc in Hc'. rewrite E in Hc'. destruct Hc' as [Hq _].
+  cbn [sqrt]. rewrite E. rewrite bi_compare_neg, bi_compare_zero.
+  split; [| split].
+  - intros Hp. destruct (Z.ltb_spec p 0); [reflexivity | lia].
+  - intros ->. reflexivity.
+  - intros Hp. destruct (Z.ltb_spec p 0); [lia |]. destruct (Z.eqb_spec p 0); [lia |].
+    destruct (sqfree_spec (p * q) ltac:(nia)) as (k & m & Esq & Hk & Hm & Hkm & Hsf).
+    rewrite Esq. cbn [obind].
+    destruct (reduce_q k q Hq) as (b & Eb & Cb & Vb). rewrite Eb. cbn [obind].
+    assert (Hbpos : (0 < qval b)%Q).
+    { rewrite Vb. unfold qval, Qlt. cbn [Qnum Qden]. lia. }
+    assert (Hval : qval b * qval b * inject_Z m == cq c).
+    { rewrite Vb. unfold cq. rewrite E. unfold qval, inject_Z, Qeq, Qmult. cbn [Qnum Qden].
+      rewrite !Pos2Z.inj_mul, !Z2Pos.id by assumption. nia. }
+    destruct (Z.eq_dec m 1) as [->|Hm1].
+    + (* perfect square: a plain rational / integer *)
+      unfold build. change (bi_compare 1 1 =? 0) with true. cbv iota.
+      destruct (radd_spec (Rat 0 1) b canon_zero Cb) as (r & Er & Cr & Vr). rewrite Er. cbn [obind].
+      destruct (lower_rat_spec r Cr) as (W & V & L).
+      eexists. split; [reflexivity |]. split; [exact L |]. left. eexists. split; [reflexivity |].
+      split; [exact W |]. assert (Vr' : qval r == qval b) by (rewrite Vr; unfold qval at 1; cbn; ring).
+      split; [rewrite V, Vr'; exact Hbpos |]. rewrite V, Vr'. rewrite <- Hval. change (inject_Z 1) with 1%Q. ring.
+    + assert (Hm2 : 1 < m) by lia.
+      destruct (build_spec (Rat 0 1) b m canon_zero Cb Hm2 (squarefree_nonsquare m Hm2 Hsf))
+        as (r & Er & D & W & B & S).
+      rewrite Er. cbn [obind]. exists r. split; [reflexivity |]. split; [exact B |]. right.
+      assert (Hs : is_surd r) by (apply S; intros Z0; rewrite Z0 in Hbpos; discriminate).
+      destruct r as [?|a' b' m']; [destruct Hs |].
+      unfold build in Er. rewrite bi_compare_zero in Er. destruct (Z.eqb_spec m 1); [lia |].
+      destruct (rsign b =? 0); [discriminate |]. injection Er as <- <- <-.
+      destruct (lower_rat_spec b Cb) as (Wb & Vb' & Lb).
+      exists (lower (rat_coeff b)), m. split; [reflexivity |]. split; [exact Wb |].
+      split; [rewrite Vb'; exact Hbpos |]. split; [exact Hm2 |]. split; [exact Hsf |].
+      rewrite Vb'. exact Hval.
+Qed.
+
+(* ---------------------------------------------------------------- never a runtime error *)
+Definition wf_opt (o : opt) : Prop := match o with Some x => wf_num x | None => True end.
+
+Lemma pzero_dec (p : qpair) : {pzero p} + {~ pzero p}.
+Proof.
+  destruct p as [a b]. unfold pzero. cbn [fst snd].
+  destruct (Qeq_dec a 0); [destruct (Qeq_dec b 0); [left; tauto | right; tauto] | right; tauto].
+Qed.
+
+Lemma with_radical_total k pop pre x y :
+  kernel_ok k pop pre ->
+  (forall a1 b1 a2 b2 n, canon a1 -> canon b1 -> canon a2 -> canon b2 -> ~ pre n (qval a2, qval b2) ->
+       k a1 b1 a2 b2 n = Val None) ->
+  (forall n p, {pre n p} + {~ pre n p}) ->
+  wf_num x -> wf_num y -> is_surd x \/ is_surd y ->
+  exists v, with_radical x y k = Val v /\ wf_opt v.
+Proof.
+  intros Hk Hz Hdec Hx Hy Hs.
+  destruct (with_radical_spec x y k Hx Hy Hs) as
+    [(? & ? & ? & ? & ? & ? & _ & _ & _ & E) |
+     (a1 & b1 & a2 & b2 & n & E & Ca1 & Cb1 & Ca2 & Cb2 & Hn & Hns & _)].
+  - exists None. split; [exact E | exact I].
+  - rewrite E. destruct (Hdec n (qval a2, qval b2)) as [Hp|Hp].
+    + destruct (Hk a1 b1 a2 b2 n Ca1 Cb1 Ca2 Cb2 Hn Hns Hp) as (r & Er & _ & W & _).
+      exists (Some r). split; [exact Er | exact W].
+    + rewrite (Hz a1 b1 a2 b2 n Ca1 Cb1 Ca2 Cb2 Hp). exists None. split; [reflexivity | exact I].
+Qed.
+
+Lemma true_dec : forall (n : Z) (p : qpair), {True} + {~ True}.
+Proof. intros. left. exact I. Qed.
+
+Lemma wfc_result_opt r : wfc r -> wf_opt (Some (NC r)).
+Proof. intros H. exact H. Qed.
+
+Lemma arith_total x y : wf_num x -> wf_num y ->
+  (exists v, add (Some x) (Some y) = Val v /\ wf_opt v) /\ (exists v, sub (Some x) (Some y) = Val v /\ wf_opt v) /\
+  (exists v, mul (Some x) (Some y) = Val v /\ wf_opt v) /\ (exists v, div (Some x) (Some y) = Val v /\ wf_opt v).
+Proof.
+  intros Hx Hy.
+  assert (Hcase : (exists cx cy, x = NC cx /\ y = NC cy) \/ (is_surd x \/ is_surd y)).
+  { destruct x as [cx|? ? ?]; [| right; left; exact I]. destruct y as [cy|? ? ?]; [| right; right; exact I].
+    left. eauto. }
+  destruct Hcase as [(cx & cy & -> & ->) | Hs].
+  - cbn [wf_num] in Hx, Hy.
+    destruct (add_coeff cx cy Hx Hy) as (r1 & E1 & W1 & _). destruct (sub_coeff cx cy Hx Hy) as (r2 & E2 & W2 & _).
+    destruct (mul_coeff cx cy Hx Hy) as (r3 & E3 & W3 & _).
+    split; [eexists; split; [exact E1 | exact W1] |]. split; [eexists; split; [exact E2 | exact W2] |].
+    split; [eexists; split; [exact E3 | exact W3] |].
+    destruct (div_coeff cx cy Hx Hy) as [Hz Hnz]. destruct (Qeq_dec (cq cy) 0) as [Z0|NZ].
+    + exists None. split; [apply Hz; exact Z0 | exact I].
+    + destruct (Hnz NZ) as (n & d & E & C & _). exists (Some (NRat n d)). split; [exact E | exact C].
+  - destruct (public_surd_route x y Hs) as (-> & -> & -> & -> & _).
+    destruct (surd_ops_unfold x y) as (-> & -> & -> & ->).
+    split; [apply (with_radical_total k_add (fun _ => padd) (fun _ _ => True)); auto using kernel_add_ok, true_dec; intros; tauto |].
+    split; [apply (with_radical_total k_sub (fun _ => psub) (fun _ _ => True)); auto using kernel_sub_ok, true_dec; intros; tauto |].
+    split; [apply (with_radical_total k_mul pmul (fun _ _ => True)); auto using kernel_mul_ok, true_dec; intros; tauto |].
+    apply (with_radical_total k_div pdiv (fun _ p => ~ pzero p)); auto using kernel_div_ok.
+    + intros a1 b1 a2 b2 n Ca1 Cb1 Ca2 Cb2 Hp. apply kernel_div_zero; try assumption.
+      destruct (pzero_dec (qval a2, qval b2)); [assumption | contradiction].
+    + intros n p. destruct (pzero_dec p); [right; tauto | left; assumption].
+Qed.
+
+Lemma compare_opt_total x y : wf_opt x -> wf_opt y -> exists c, compare x y = Val c.
+Proof.
+  intros Hx Hy. destruct x as [x|]; [| eexists; reflexivity].
+  destruct y as [y|]; [| destruct x as [[?|? ?]|? ? ?]; eexists; reflexivity].
+  destruct (compare_total x y Hx Hy) as (c & E & _). eauto.
+Qed.
+
+Lemma neg_total x : wf_opt x -> exists v, neg x = Val v /\ wf_opt v.
+Proof.
+  intros Hx. destruct x as [[c|a b n]|]; [| | exists None; split; [reflexivity | exact I]].
+  - destruct (neg_coeff c Hx) as (r & E & W & _). exists (Some (NC r)). split; [exact E | exact W].
+  - destruct Hx as (Ha & Hb & Hnz & Hn & Hns). cbn [neg].
+    kstep (rneg_spec (to_rational a) Ha). kstep (rneg_spec (to_rational b) Hb).
+    destruct (build_spec r r0 n C C0 Hn Hns) as (res & E1 & _ & W & _). rewrite E1. cbn [obind].
+    exists (Some res). split; [reflexivity | exact W].
+Qed.
+
+Lemma abs_total x : wf_opt x -> exists v, abs x = Val v /\ wf_opt v.
+Proof.
+  intros Hx. destruct x as [[c|a b n]|]; [| | exists None; split; [reflexivity | exact I]].
+  - destruct (abs_coeff c Hx) as (r & E & W & _). exists (Some (NC r)). split; [exact E | exact W].
+  - pose proof Hx as (Ha & Hb & Hnz & Hn & Hns). cbn [abs].
+    rewrite (ssign_spec _ _ n Ha Hb). cbn [obind].
+    destruct (surd_sign (qval (to_rational a)) (qval (to_rational b)) n =? -1).
+    + kstep (rneg_spec (to_rational a) Ha). kstep (rneg_spec (to_rational b) Hb).
+      destruct (build_spec r r0 n C C0 Hn Hns) as (res & E1 & _ & W & _). rewrite E1. cbn [obind].
+      exists (Some res). split; [reflexivity | exact W].
+    + exists (Some (NSurd a b n)). split; [reflexivity | exact Hx].
+Qed.
+
+Lemma to_int_total x : wf_num x -> exists t, to_int (Some x) = Val (Some t).
+Proof.
+  intros Hx. destruct x as [c|a b n].
+  - destruct (to_rational c) as [m d] eqn:E. rewrite (to_int_coeff c m d Hx E). eauto.
+  - destruct Hx as (Ha & Hb & Hnz & Hn & Hns). cbn [to_int].
+    rewrite (ssign_spec _ _ n Ha Hb). cbn [obind].
+    assert (Hpair : exists pa qa pb qb,
+      (if bi_compare (surd_sign (qval (to_rational a)) (qval (to_rational b)) n) 0 =? -1
+       then ra <- rneg (to_rational a) ;; rb <- rneg (to_rational b) ;; Val (ra, rb)
+       else Val (to_rational a, to_rational b)) = Val (Rat pa qa, Rat pb qb) /\ 0 < qa /\ 0 < qb).
+    { destruct (bi_compare _ 0 =? -1).
+      - destruct (rneg_spec (to_rational a) Ha) as ([pa qa] & E1 & [C1 _] & _).
+        destruct (rneg_spec (to_rational b) Hb) as ([pb qb] & E2 & [C2 _] & _).
+        rewrite E1, E2. cbn [obind]. exists pa, qa, pb, qb. auto.
+      - unfold wfc in Ha, Hb. destruct (to_rational a) as [pa qa]. destruct (to_rational b) as [pb qb].
+        destruct Ha as [C1 _]. destruct Hb as [C2 _]. exists pa, qa, pb, qb. auto. }
+    destruct Hpair as (pa & qa & pb & qb & E & Hqa & Hqb). rewrite E. cbn [obind].
+    unfold bi_sqrt. pose proof (Z.square_nonneg (pb * qa)) as Hsq.
+    destruct (Z.ltb_spec (pb * qa * (pb * qa) * n) 0) as [Hneg|_]; [nia |]. cbn [obind].
+    rewrite bi_divide_ok by nia. cbn [obind]. eauto.
+Qed.
+
+Lemma wf_int t : wf_num (NInt t).
+Proof. apply wfc_int. Qed.
+
+Lemma floor_total x : wf_num x -> exists f, floor (Some x) = Val (Some f).
+Proof.
+  intros Hx. unfold floor. destruct (to_int_total x Hx) as (t & E). rewrite E. cbn [obind optz_num option_map].
+  destruct (compare_total x (NInt t) Hx (wf_int t)) as (c & Ec & _). rewrite Ec. cbn [obind].
+  destruct c as [ [ | p | p ] | ]; try (eexists; reflexivity).
+  destruct p; eexists; reflexivity.
+Qed.
+
+Lemma ceil_total x : wf_num x -> exists f, ceil (Some x) = Val (Some f).
+Proof.
+  intros Hx. unfold ceil. destruct (to_int_total x Hx) as (t & E). rewrite E. cbn [obind optz_num option_map].
+  destruct (compare_total x (NInt t) Hx (wf_int t)) as (c & Ec & _). rewrite Ec. cbn [obind].
+  destruct c as [ [ | p | p ] | ]; try (eexists; reflexivity).
+  destruct p; eexists; reflexivity.
+Qed.
+
+Lemma round_total x : wf_num x -> exists f, round (Some x) = Val (Some f).
+Proof.
+  intros Hx. unfold round. destruct (floor_total x Hx) as (f & E). rewrite E. cbn [obind need_int].
+  assert (Hmid : wf_num (NRat (f * 2 + 1) 2)) by (split; [lia | apply gcd_odd_2]).
+  destruct (compare_total x _ Hx Hmid) as (c & Ec & Hc). rewrite Ec. cbn [obind].
+  destruct Hc as [-> | [-> | [-> | ->]]]; try (eexists; reflexivity); destruct (bi_compare f 0 =? -1); eexists; reflexivity.
+Qed.
+
+Lemma sqrt_total x : wf_opt x -> exists v, sqrt x = Val v.
+Proof.
+  intros Hx. destruct x as [[c|a b n]|]; try (eexists; reflexivity).
+  destruct (to_rational c) as [p q] eqn:E.
+  destruct (sqrt_coeff c p q Hx E) as (H1 & H2 & H3).
+  destruct (Z.lt_trichotomy p 0) as [Hp|[Hp|Hp]].
+  - rewrite (H1 Hp). eauto.
+  - rewrite (H2 Hp). eauto.
+  - destruct (H3 Hp) as (r & Er & _). rewrite Er. eauto.
+Qed.
+
+(* No exported operation, on nil or well-formed operands, reaches integer_divide / integer_modulo by
+   zero, integer_sqrt of a negative, a builtin applied to nil, or fuel exhaustion: the outcome is
+   always a value. *)
+Theorem never_errs op x y z : wf_opt x -> wf_opt y -> wf_opt z ->
+  exists v, run_op op [x; y; z] = Val v.
+Proof.
+  intros Hx Hy Hz. unfold run_op, arg. cbn [nth].
+  assert (Hc : forall u w, wf_opt u -> wf_opt w -> exists c, compare u w = Val c) by (intros; now apply compare_opt_total).
+  assert (Hbin : forall (f : opt -> opt -> outcome opt),
+            (forall a b, wf_num a -> wf_num b -> exists v, f (Some a) (Some b) = Val v) ->
+            (forall b, f None b = Val None) -> (forall a, f (Some a) None = Val None) ->
+            exists v, rn (f x y) = Val v).
+  { intros f H1 H2 H3. destruct x as [a|]; [| rewrite H2; eexists; reflexivity].
+    destruct y as [b|]; [| rewrite H3; eexists; reflexivity].
+    destruct (H1 a b Hx Hy) as (v & E). rewrite E. eexists; reflexivity. }
+  assert (Hr : forall a : num, (forall (f : opt -> opt -> outcome opt), True) -> True) by auto.
+  destruct op.
+  - apply Hbin; [intros a b Ha Hb; destruct (arith_total a b Ha Hb) as ((v & E & _) & _); eauto | reflexivity | intros [[?|? ?]|? ? ?]; reflexivity].
+  - apply Hbin; [intros a b Ha Hb; destruct (arith_total a b Ha Hb) as (_ & (v & E & _) & _); eauto | reflexivity | intros [[?|? ?]|? ? ?]; reflexivity].
+  - apply Hbin; [intros a b Ha Hb; destruct (arith_total a b Ha Hb) as (_ & _ & (v & E & _) & _); eauto | reflexivity | intros [[?|? ?]|? ? ?]; reflexivity].
+  - apply Hbin; [intros a b Ha Hb; destruct (arith_total a b Ha Hb) as (_ & _ & _ & (v & E & _)); eauto | reflexivity | intros [[?|? ?]|? ? ?]; reflexivity].
+  - destruct (neg_total x Hx) as (v & E & _). rewrite E. eexists; reflexivity.
+  - destruct (abs_total x Hx) as (v & E & _). rewrite E. eexists; reflexivity.
+  - (* min *) apply Hbin; [| reflexivity | intros [[?|? ?]|? ? ?]; reflexivity].
+    intros a b Ha Hb. unfold min. destruct (compare_total a b Ha Hb) as (c & E & _). rewrite E. cbn [obind].
+    destruct c as [ [ | p | p ] | ]; try (eexists; reflexivity). destruct p; eexists; reflexivity.
+  - (* max *) apply Hbin; [| reflexivity | intros [[?|? ?]|? ? ?]; reflexivity].
+    intros a b Ha Hb. unfold max. destruct (compare_total a b Ha Hb) as (c & E & _). rewrite E. cbn [obind].
+    destruct c as [ [ | p | p ] | ]; try (eexists; reflexivity). destruct p; eexists; reflexivity.
+  - (* clamp *)
+    destruct x as [a|]; [| eexists; reflexivity].
+    destruct y as [b|]; [| destruct a as [[?|? ?]|? ? ?]; eexists; reflexivity].
+    destruct z as [c|]; [| destruct a as [[?|? ?]|? ? ?]; destruct b as [[?|? ?]|? ? ?]; eexists; reflexivity].
+    unfold clamp. destruct (compare_total a b Hx Hy) as (c1 & E1 & H1). rewrite E1. cbn [obind].
+    destruct (compare_total a c Hx Hz) as (c2 & E2 & H2).
+    destruct H1 as [-> | [-> | [-> | ->]]]; try (eexists; reflexivity); rewrite E2; cbn [obind];
+      destruct H2 as [-> | [-> | [-> | ->]]]; eexists; reflexivity.
+  - (* sign *) unfold sign. destruct (Hc x (Some (NInt 0)) Hx (wf_int 0)) as (c & E). rewrite E. eexists; reflexivity.
+  - destruct (sqrt_total x Hx) as (v & E). rewrite E. eexists; reflexivity.
+  - destruct x as [[[?|? ?]|? ? ?]|]; eexists; reflexivity.
+  - destruct x as [[[?|? ?]|? ? ?]|]; eexists; reflexivity.
+  - destruct x as [a|]; [| eexists; reflexivity]. destruct (to_int_total a Hx) as (t & E). rewrite E. eexists; reflexivity.
+  - destruct x as [a|]; [| eexists; reflexivity]. destruct (floor_total a Hx) as (t & E). rewrite E. eexists; reflexivity.
+  - destruct x as [a|]; [| eexists; reflexivity]. destruct (ceil_total a Hx) as (t & E). rewrite E. eexists; reflexivity.
+  - destruct x as [a|]; [| eexists; reflexivity]. destruct (round_total a Hx) as (t & E). rewrite E. eexists; reflexivity.
+  - unfold eqp, pred. destruct (Hc x y Hx Hy) as (c & E). rewrite E. destruct c; eexists; reflexivity.
+  - unfold ltp, pred. destruct (Hc x y Hx Hy) as (c & E). rewrite E. destruct c; eexists; reflexivity.
+  - unfold lep, pred. destruct (Hc x y Hx Hy) as (c & E). rewrite E. destruct c; eexists; reflexivity.
+  - unfold gtp, pred. destruct (Hc x y Hx Hy) as (c & E). rewrite E. destruct c; eexists; reflexivity.
+  - unfold gep, pred. destruct (Hc x y Hx Hy) as (c & E). rewrite E. destruct c; eexists; reflexivity.
+  - (* min_fixed *) apply Hbin; [| reflexivity | intros [[?|? ?]|? ? ?]; reflexivity].
+    intros a b Ha Hb. unfold min_fixed. destruct (compare_total a b Ha Hb) as (c & E & _). rewrite E. cbn [obind].
+    destruct c as [ [ | p | p ] | ]; try (eexists; reflexivity). destruct p; eexists; reflexivity.
+  - (* max_fixed *) apply Hbin; [| reflexivity | intros [[?|? ?]|? ? ?]; reflexivity].
+    intros a b Ha Hb. unfold max_fixed. destruct (compare_total a b Ha Hb) as (c & E & _). rewrite E. cbn [obind].
+    destruct c as [ [ | p | p ] | ]; try (eexists; reflexivity). destruct p; eexists; reflexivity.
+  - (* clamp_fixed *)
+    destruct x as [a|]; [| eexists; reflexivity].
+    destruct y as [b|]; [| destruct a as [[?|? ?]|? ? ?]; eexists; reflexivity].
+    destruct z as [c|]; [| destruct a as [[?|? ?]|? ? ?]; destruct b as [[?|? ?]|? ? ?]; eexists; reflexivity].
+    unfold clamp_fixed. destruct (compare_total a b Hx Hy) as (c1 & E1 & H1). rewrite E1. cbn [obind].
+    destruct (compare_total a c Hx Hz) as (c2 & E2 & H2).
+    destruct H1 as [-> | [-> | [-> | ->]]]; try (eexists; reflexivity); rewrite E2; cbn [obind];
+      destruct H2 as [-> | [-> | [-> | ->]]]; eexists; reflexivity.
 Qed.
